@@ -507,12 +507,12 @@ theorem remove_char (st : ArgsSt) (a : ArgIn) (h : Inv st) :
           inv_erase_both h k j hklt hjlt (hjt.trans hkt.symm)⟩
 
 /-- `pop` on a state satisfying the invariant: `IndexError` with nothing changed, or the
-list loses item `k` and `.all` loses – and the caller receives – its first textual twin. -/
+list loses item `k` – which the caller receives – and `.all` loses its first textual twin. -/
 theorem pop_char (st : ArgsSt) (i : Int) (h : Inv st) :
     (specIdx st.lst.length i = none ∧ Args.pop st i = (st, .indexError)) ∨
-    (∃ k e j r, specIdx st.lst.length i = some k ∧ st.lst[k]? = some e ∧
-      st.all[j]? = some r ∧ r.txt = ser e ∧
-      Args.pop st i = (⟨st.lst.eraseIdx k, st.all.eraseIdx j⟩, .item r) ∧
+    (∃ k e j, specIdx st.lst.length i = some k ∧ st.lst[k]? = some e ∧
+      (∃ hj : j < st.all.length, st.all[j].txt = ser e) ∧
+      Args.pop st i = (⟨st.lst.eraseIdx k, st.all.eraseIdx j⟩, .item (.grp e)) ∧
       Inv ⟨st.lst.eraseIdx k, st.all.eraseIdx j⟩) := by
   unfold Args.pop
   rw [pyIndex_eq_spec]
@@ -525,10 +525,29 @@ theorem pop_char (st : ArgsSt) (i : Int) (h : Inv st) :
     simp only [hget]
     rcases idxOfTxt_isSome_of_mem _ _ _ (twin_mem h (List.getElem_mem hklt)) with ⟨j, hj⟩
     rcases idxOfTxt_some _ _ _ _ hj with ⟨hjlt, hjt⟩
+    simp only [hj]
+    exact ⟨k, st.lst[k], j, rfl, hget, ⟨hjlt, hjt⟩, rfl, inv_erase_both h k j hklt hjlt hjt⟩
+
+/-- The pre-repair `pop` differs from the repaired one only in the value handed back: the
+entry of `.all` it deletes instead of the list item. -/
+theorem legacy_pop_char (st : ArgsSt) (i : Int) (h : Inv st) :
+    (Args.Legacy.pop st i).1 = (Args.pop st i).1 ∧
+    ((Args.pop st i).2 = .indexError ∧ (Args.Legacy.pop st i).2 = .indexError ∨
+     ∃ e r, (Args.pop st i).2 = .item (.grp e) ∧ (Args.Legacy.pop st i).2 = .item r ∧
+       r ∈ st.all ∧ e ∈ st.lst ∧ r.txt = ser e) := by
+  unfold Args.Legacy.pop Args.pop
+  rw [pyIndex_eq_spec]
+  cases hk : specIdx st.lst.length i with
+  | none => exact ⟨rfl, Or.inl ⟨rfl, rfl⟩⟩
+  | some k =>
+    have hklt := specIdx_lt hk
+    have hget : st.lst[k]? = some st.lst[k] := List.getElem?_eq_getElem hklt
+    simp only [hget]
+    rcases idxOfTxt_isSome_of_mem _ _ _ (twin_mem h (List.getElem_mem hklt)) with ⟨j, hj⟩
+    rcases idxOfTxt_some _ _ _ _ hj with ⟨hjlt, hjt⟩
     have hgetj : st.all[j]? = some st.all[j] := List.getElem?_eq_getElem hjlt
     simp only [hj, hgetj]
-    exact ⟨k, st.lst[k], j, st.all[j], rfl, hget, hgetj, hjt, rfl,
-      inv_erase_both h k j hklt hjlt hjt⟩
+    exact ⟨trivial, Or.inr ⟨_, _, rfl, rfl, List.getElem_mem hjlt, List.getElem_mem hklt, hjt⟩⟩
 
 /-! ## `extend`, the constructor, slices -/
 
@@ -606,10 +625,9 @@ theorem getItem_char (st : ArgsSt) (i : Int) :
 
 /-! ## One step, strongest form -/
 
-/-- What is known about a returned item: it prints like the list item, and it is that very
-object unless it comes out of `.all` (only `pop` does that). -/
-def ItemRel (st : ArgsSt) (isPop : Bool) (it : ArgItem) (e : Expr) : Prop :=
-  it.txt = ser e ∧ e ∈ st.lst ∧ (it = .grp e ∨ (isPop = true ∧ it ∈ st.all))
+/-- What is known about a returned item: it is the very list item. -/
+def ItemRel (st : ArgsSt) (it : ArgItem) (e : Expr) : Prop :=
+  it = .grp e ∧ e ∈ st.lst
 
 theorem outRel_mono {R R' : ArgItem → Expr → Prop} (h : ∀ it e, R it e → R' it e)
     {o : ArgsOut} {s : SpecOut} (hr : OutRel R o s) : OutRel R' o s := by
@@ -621,7 +639,7 @@ theorem outLoop_toRel {R : ArgItem → Expr → Prop} {o : ArgsOut} {s : SpecOut
 
 theorem step_core (st : ArgsSt) (op : ArgsOp) (h : Inv st) :
     (Args.step st op).1.lst = (specStep st.lst op).1 ∧ Inv (Args.step st op).1 ∧
-    OutRel (ItemRel st (isPopOp op)) (Args.step st op).2 (specStep st.lst op).2 := by
+    OutRel (ItemRel st) (Args.step st op).2 (specStep st.lst op).2 := by
   cases op with
   | append a =>
     simp only [Args.step, Args.append, specStep]
@@ -650,11 +668,10 @@ theorem step_core (st : ArgsSt) (op : ArgsOp) (h : Inv st) :
     · rw [hr, hc]; simp only [hs]; exact ⟨trivial, hinv, trivial⟩
   | pop i =>
     simp only [Args.step, specStep]
-    rcases pop_char st i h with ⟨hk, hp⟩ | ⟨k, e, j, r, hk, hget, hgetj, htxt, hp, hinv⟩
+    rcases pop_char st i h with ⟨hk, hp⟩ | ⟨k, e, j, hk, hget, _, hp, hinv⟩
     · rw [hp, hk]; exact ⟨rfl, h, trivial⟩
     · rw [hp, hk]; simp only [hget]
-      refine ⟨List.eraseIdx_eq_take_drop_succ _ _, hinv, ?_⟩
-      exact ⟨htxt, List.mem_of_getElem? hget, Or.inr ⟨rfl, List.mem_of_getElem? hgetj⟩⟩
+      exact ⟨List.eraseIdx_eq_take_drop_succ _ _, hinv, rfl, List.mem_of_getElem? hget⟩
   | reverse => exact ⟨rfl, inv_reverse h, trivial⟩
   | clear => exact ⟨rfl, inv_empty, trivial⟩
   | getItem i =>
@@ -662,7 +679,7 @@ theorem step_core (st : ArgsSt) (op : ArgsOp) (h : Inv st) :
     rcases getItem_char st i with ⟨hk, hg⟩ | ⟨k, e, hk, hget, hg⟩
     · rw [hg, hk]; exact ⟨rfl, h, trivial⟩
     · rw [hg, hk]; simp only [hget]
-      exact ⟨trivial, h, rfl, List.mem_of_getElem? hget, Or.inl rfl⟩
+      exact ⟨trivial, h, rfl, List.mem_of_getElem? hget⟩
   | slice lo hi =>
     simp only [Args.step, specStep]
     rcases slice_char st lo hi h with ⟨st', hs, hl, hinv⟩
@@ -788,7 +805,7 @@ theorem plain_step (st : ArgsSt) (op : ArgsOp) (h : Inv st) (hp : PlainSt st)
     · rw [hr]; exact plainSt_sub hp (specRemove_sub hs) (fun _ hx => List.mem_of_mem_eraseIdx hx)
   | pop i =>
     simp only [Args.step]
-    rcases pop_char st i h with ⟨_, hq⟩ | ⟨k, e, j, r, _, _, _, _, hq, _⟩
+    rcases pop_char st i h with ⟨_, hq⟩ | ⟨k, e, j, _, _, _, hq, _⟩
     · rw [hq]; exact hp
     · rw [hq]
       exact plainSt_sub hp (fun _ hx => List.mem_of_mem_eraseIdx hx) (fun _ hx => List.mem_of_mem_eraseIdx hx)
@@ -804,21 +821,20 @@ theorem plain_step (st : ArgsSt) (op : ArgsOp) (h : Inv st) (hp : PlainSt st)
     rw [hs]; exact hp
   | str => exact hp
 
-/-- On plain pools a textual twin is the same value, so `pop` returns the list item. -/
-theorem item_exact_of_plain {st : ArgsSt} (hp : PlainSt st) {b : Bool} {it : ArgItem} {e : Expr}
-    (hr : ItemRel st b it e) : it = .grp e := by
-  rcases hr with ⟨htxt, he, h | ⟨_, hit⟩⟩
-  · exact h
-  · have hpe := hp.lst e he
-    have hpi := hp.all it hit
-    cases it with
-    | grp x => rw [ser_inj_plain hpi hpe htxt]
-    | ws s =>
-      have : isBlank s = true := hpi
-      have h2 := plain_not_blank hpe
-      simp only [ArgItem.txt] at htxt
-      rw [← htxt, this] at h2
-      cases h2
+/-- On plain pools a textual twin is the same value (so even the pre-repair `pop` returned
+the right thing there). -/
+theorem twin_exact_of_plain {st : ArgsSt} (hp : PlainSt st) {it : ArgItem} {e : Expr}
+    (hit : it ∈ st.all) (he : e ∈ st.lst) (htxt : it.txt = ser e) : it = .grp e := by
+  have hpe := hp.lst e he
+  have hpi := hp.all it hit
+  cases it with
+  | grp x => rw [ser_inj_plain hpi hpe htxt]
+  | ws s =>
+    have : isBlank s = true := hpi
+    have h2 := plain_not_blank hpe
+    simp only [ArgItem.txt] at htxt
+    rw [← htxt, this] at h2
+    cases h2
 
 /-! ## Concrete values used by the non-vacuity examples of `Properties/C18.lean` -/
 namespace Examples
